@@ -1,19 +1,35 @@
 /- GENERATED: instance obligations for one logic, discharged by kernel evaluation.
-   `X ⊆ known`: every failing row is a committed known finding (Ptx/Gen/Known.lean). -/
+   `S` = the logic with its DOCUMENTED tables (Ptx/Sem/Spec.lean); rules, closure, trunk and frames
+   are what the translator read off the code.  `X ⊆ known`: every failing row is a committed
+   known finding (Ptx/Gen/Known.lean, generated from known_findings.json). -/
 import Ptx.Gen.L_S4
 import Ptx.Gen.Known
 import Ptx.Sem.Subset
+import Ptx.Props.C01
+import Ptx.Gen.L_CFOL
 namespace Ptx.Gen.Obl.S4
 open Ptx
 
-theorem tables_total : Gen.S4.tablesTotalB = true := by decide +kernel
-theorem rules_exact : subsetB Gen.S4.badRules (Known.badRules "S4") = true := by decide +kernel
-theorem rules_sound : subsetB Gen.S4.unsoundRules (Known.unsoundRules "S4") = true := by decide +kernel
-theorem rules_total : subsetB Gen.S4.missingRules (Known.missingRules "S4") = true := by decide +kernel
-theorem rules_local : Gen.S4.nonLocalRules = [] := by decide +kernel
-theorem closure_total : Gen.S4.closureTotalB = true := by decide +kernel
-theorem closure_exact : subsetB Gen.S4.badClosure (Known.badClosure "S4") = true := by decide +kernel
-theorem read_total : Gen.S4.readTotalB = true := by decide +kernel
-theorem read_exact : subsetB Gen.S4.badRead (Known.badRead "S4") = true := by decide +kernel
+/-- a modal / first-order extension has exactly the truth-functional tables of its base (CFOL) -/
+theorem base_tables : Gen.S4.tables.sameTF Gen.CFOL.tables = true := by decide +kernel
+theorem spec_defined : Gen.S4.specDefinedB = true := by decide +kernel
+theorem tables_spec : subsetB Gen.S4.tableDiff (Known.tableDiff "S4") = true := by decide +kernel
+theorem defined_ops : Gen.S4.tables.definedOpsBad = [] := by decide +kernel
+theorem tables_total : Gen.S4.sem.tablesTotalB = true := by decide +kernel
+theorem rules_exact : subsetB Gen.S4.sem.badRules (Known.badRules "S4") = true := by decide +kernel
+theorem rules_sound : subsetB Gen.S4.sem.unsoundRules (Known.unsoundRules "S4") = true := by decide +kernel
+theorem rules_total : subsetB Gen.S4.sem.missingRules (Known.missingRules "S4") = true := by decide +kernel
+theorem rules_local : Gen.S4.sem.nonLocalRules = [] := by decide +kernel
+theorem closure_total : Gen.S4.sem.closureTotalB = true := by decide +kernel
+theorem closure_exact : subsetB Gen.S4.sem.badClosure (Known.badClosure "S4") = true := by decide +kernel
+theorem read_total : Gen.S4.sem.readTotalB = true := by decide +kernel
+theorem read_exact : subsetB Gen.S4.sem.badRead (Known.badRead "S4") = true := by decide +kernel
+theorem sound_core : Gen.S4.sem.soundCoreB = true := by decide +kernel
+
+/-- C01 for this logic: a closed tableau reached by any legal derivation has no countermodel. -/
+theorem c01_valid_sound (arg : Argument) (t : Tableau)
+    (hd : Deriv Gen.S4.sem.soundPart.noQuantPart (trunk Gen.S4.sem arg) t) (hclosed : t.allClosed = true)
+    (M : Struct) (hM : M.Interp Gen.S4.sem) (e : Env M.D) (w0 : M.W) : ¬ Countermodel Gen.S4.sem M e w0 arg :=
+  Props.C01.C01_valid_sound_partial Gen.S4.sem sound_core arg t hd hclosed M hM e w0
 
 end Ptx.Gen.Obl.S4
